@@ -10,7 +10,7 @@ READY = True
 LEVEL = "exploration"
 WORKERS = {"quick": 8, "thorough": 16}
 BUDGET = {"quick": 60, "thorough": 420}
-MIN_NONTRIVIAL = {"quick": 3000, "thorough": 60000}
+MIN_NONTRIVIAL = {"quick": 1500, "thorough": 25000}
 REQUIRED_HOOKS = ["evaluate:I", "evaluate:C", "isinstance", "type-eq", "dunder-result-class"]
 RULE = (
     "Well-typed expressions from the type-directed generator (every operator, function, macro, conversion and accessor at the root and nested, static type known) "
